@@ -15,7 +15,14 @@ import (
 
 type vrand struct{ s uint64 }
 
-func newVrand(seed uint64) *vrand { return &vrand{seed*0x9E3779B97F4A7C15 + 0x1234567} }
+// the initial state is a hash of the seed: nearby seeds must not give shifted copies of one stream
+func newVrand(seed uint64) *vrand {
+	z := seed + 0x1234567
+	z = (z ^ (z >> 30)) * 0xBF58476D1CE4E5B9
+	z = (z ^ (z >> 27)) * 0x94D049BB133111EB
+	z ^= z >> 31
+	return &vrand{z*0xD1342543DE82EF95 + 0x9E3779B97F4A7C15}
+}
 func (r *vrand) u64() uint64 {
 	r.s += 0x9E3779B97F4A7C15
 	z := r.s
